@@ -300,6 +300,14 @@ func NoteYield(site string) {
 		set, clear = FUpdate, FRestore
 	case "ctl.cycle.end", "ctl.done":
 		set, clear = FRestore, FUpdate
+	case "ctl.abort":
+		set, clear = FRestore, FUpdate|FPwmMapSweep|FInitSeq
+	case "ctl.startup":
+		// from here to the start of the RPM-curve measurement (or of regulation) every PWM value this
+		// goroutine writes belongs to the sweep of the PWM map
+		set = FPwmMapSweep
+	case "ctl.measure":
+		set, clear = FInitSeq, FPwmMapSweep
 	case "rpm.tick":
 		set = FMeasureRpm
 	case "rpm.poll.end", "rpm.done":
